@@ -20,4 +20,9 @@ CASES = [
          old="        return self._as_observable().pipe(ops.take(count))", new="        return ops.take(count)(self._as_observable())")]),
     dict(expect="fire", desc="seed C39-r2/1: fluent reduce drops an explicit None seed", names="F2-forwarding", edits=[dict(file="reactivex/observable/mixins/transformation.py",
          old="        if seed is NotSet:", new="        if seed is NotSet or seed is None:")]),
+    dict(expect="fire", desc="seed C39-r3/3: fluent last_or_default takes (predicate, default_value)", names="F5-positional-roles", edits=[dict(file="reactivex/observable/mixins/filtering.py",
+         old="        default_value: Any = None,\n        predicate: typing.Predicate[_T] | None = None,\n    ) -> Observable[Any]:\n        \"\"\"Return last element or default value.",
+         new="        predicate: typing.Predicate[_T] | None = None,\n        default_value: Any = None,\n    ) -> Observable[Any]:\n        \"\"\"Return last element or default value.")]),
+    dict(expect="fire", desc="seed C39-r3/2: ConnectableObservable defines its own ref_count()", names="F4-no-override", edits=[dict(file="reactivex/observable/connectableobservable.py",
+         old="    def auto_connect(self, subscriber_count: int = 1) -> Observable[_T]:", new="    def ref_count(self) -> Observable[_T]:\n        from reactivex.operators.connectable._refcount import ref_count_\n\n        return ref_count_()(self)\n\n    def auto_connect(self, subscriber_count: int = 1) -> Observable[_T]:")]),
 ]
